@@ -33,10 +33,16 @@ package rpc
 // the permissions verifyAuth returns and refuses malformed Authorization headers). With authentication
 // enabled every request goes through it - with or without a CORS configuration; with authentication
 // disabled none does, so that no credential of any form can make a method unreachable.
+// (call-site view: the handler stack is wrapped. Body view: the verifier installed is verifyAuth itself -
+// the function makes no call and contains no function literal, so nothing can stand between a request's
+// token and the signature / expiry check on that very request: no cache of earlier verdicts, no wrapper.)
+//@ extern (*github.com/celestiaorg/celestia-node/api/rpc.Server).authHandler
+//@   effect $AuthWrapped := true
 //@ func (*Server).authHandler
 //@   property C19
-//@   trusted
-//@   effect $AuthWrapped := true
+//@   noframe
+//@   noliterals
+//@   only .:
 
 //@ func (*Server).newHandlerStack
 //@   property C19
